@@ -93,6 +93,15 @@ func staticSetup() *staticEnv {
 	// a file system of the application's own that joins the name it is given onto its root: it relies on being handed the
 	// cleaned, rooted names net/http's file server produces
 	mk("fs-naive", func(r *rux.Router) { r.StaticFS("/assets", naiveFS{e.root}) })
+	// two registrations under ONE URL prefix with different roots and extensions: each serves from its own root
+	mk("css-two-roots", func(r *rux.Router) {
+		other := filepath.Join(tmp, "other") // a root of its own for the first registration (nothing secret in it)
+		os.MkdirAll(other, 0o755)
+		_ = os.WriteFile(filepath.Join(other, "a.txt"), []byte("OTHER-A-TXT"), 0o644)
+		_ = os.WriteFile(filepath.Join(other, "a.css"), []byte("OTHER-A-CSS"), 0o644)
+		r.StaticFiles("/assets", other, "txt")
+		r.StaticFiles("/assets", e.root, "css")
+	})
 	mk("fs", func(r *rux.Router) { r.StaticFS("/assets", http.Dir(e.root)) })
 	mk("css", func(r *rux.Router) { r.StaticFiles("/assets", e.root, "css") })
 	mk("cssjs", func(r *rux.Router) { r.StaticFiles("/assets", e.root, "css|js") })
@@ -105,7 +114,7 @@ type naiveFS struct{ root string }
 func (n naiveFS) Open(name string) (http.File, error) { return os.Open(filepath.Join(n.root, name)) }
 
 // staticTwin: handlers that must answer exactly like another one (same files, configured in another way)
-var staticTwin = map[string]string{"dir-relative": "dir", "css-relative": "css"}
+var staticTwin = map[string]string{"dir-relative": "dir", "css-relative": "css", "css-two-roots": "css"}
 
 func staticReplay(s *Summary, raw json.RawMessage) {
 	var c staticCase
@@ -129,6 +138,9 @@ func staticReplay(s *Summary, raw json.RawMessage) {
 	defer func() {
 		for name, twin := range staticTwin {
 			for k, a := range answers {
+				if name == "css-two-roots" && !strings.HasSuffix(strings.TrimRight(rawPath, "/"), ".css") {
+					continue // (other extensions belong to the first registration)
+				}
 				if strings.HasPrefix(k, name+"#") && answers[twin+"#"+strings.TrimPrefix(k, name+"#")] != a {
 					s.mismatch(map[string]any{"kind": "static", "aspect": "precision", "handler": name, "what": fmt.Sprintf(
 						"%s handler, request variant %s of %q: answered %q, the %s handler (same files) answered %q", name, strings.TrimPrefix(k, name+"#"), rawPath, a, twin,
@@ -192,6 +204,9 @@ func staticReplay(s *Summary, raw json.RawMessage) {
 			}
 			if name == "css-relative" {
 				model = c.Files["css"]
+			}
+			if name == "css-two-roots" {
+				continue // judged by confinement and by its twin only
 			}
 			switch model.Kind {
 			case "file":
